@@ -9,9 +9,14 @@ import (
 	"github.com/hashicorp/nodeenrollment/zzverif/vfs"
 )
 
-var VfHarnesses = map[string]func(){"VerifC19FileStep": VerifC19FileStep}
+var VfHarnesses = map[string]func(){"VerifC19FileStep": VerifC19FileStep, "VerifC19FileStep3": VerifC19FileStep3}
 
 // C19 for the file back end: the inductive map step over an abstract file system (engine) / a temporary directory (native).
+var vfPre = 2
+
+// VerifC19FileStep3 is the same step from a three-entry pre-state (thorough tier).
+func VerifC19FileStep3() { vfPre = 3; VerifC19FileStep() }
+
 func VerifC19FileStep() {
 	ctx := context.Background()
 	st, err := New(ctx)
@@ -20,5 +25,5 @@ func VerifC19FileStep() {
 		return
 	}
 	defer st.Cleanup(ctx)
-	vfs.MapStep(ctx, st, false)
+	vfs.MapStep(ctx, st, false, vfPre)
 }
